@@ -33,6 +33,13 @@ func alignSnapshots(p *world.Profile, rng *rand.Rand, after int) {
 	p.PegnetAct = 144*k - uint32(after) - 1
 }
 
+// alignActivation shifts the whole layout so that the named activation
+// height is a multiple of 144.
+func alignActivation(p *world.Profile, name string) {
+	act := world.Layout(p.PegnetAct, p.StartEra, p.Gaps)
+	p.PegnetAct += (144 - act[name]%144) % 144
+}
+
 func init() {
 	// ------------------------------------------------------------ C03
 	Register(&refineCheck{id: "C03",
@@ -194,6 +201,21 @@ func init() {
 			p.POutage = 0.03
 			p.SPR = rng.Intn(2) == 0
 			p.PegPriceX = []uint64{1, 3000, 30000, 100000}[rng.Intn(4)]
+			if rng.Intn(4) == 0 {
+				// the first snapshot height is itself an activation height (2.0, 2.0.2):
+				// the rules that start there must already hold for that snapshot
+				name := []string{"V20", "V202"}[rng.Intn(2)]
+				p.StartEra = map[string]int{"V20": eraV20 - 1, "V202": eraV202 - 2}[name] // 2.0.2 shares its height with the small-asset rule
+				for i := range p.Gaps {
+					p.Gaps[i] = uint32(14 + rng.Intn(12))
+				}
+				alignActivation(&p, name)
+				p.Blocks = 30 + 144 + 3 + rng.Intn(10)
+				p.POutage = 0.08
+				if name == "V20" {
+					p.SPR = false // before 2.0.2 a staking price outside the band voids the whole block, snapshot included
+				}
+			}
 			return p
 		},
 		extra: func(rng *rand.Rand, g *world.Gen) func(uint32, *world.BlockSpec) {
